@@ -24,7 +24,7 @@ for p in props:
 na = [{"property_id": p, "reason": MM.NOT_APPLICABLE.get(p, "check not built yet (engine extension in progress); see DESIGN.md section 6")} for p in props if p not in {c["property_id"] for c in checks}]
 man = {
     "version": 1,
-    "setup_cmd": "cd /verif/engine && GOFLAGS=-mod=mod GOPROXY=off GOSUMDB=off GOTOOLCHAIN=local go build -o ../bin/gosymx ./cmd/gosymx && GOFLAGS=-mod=mod GOPROXY=off GOSUMDB=off GOTOOLCHAIN=local go test -short -count=1 ./term ./smt",
+    "setup_cmd": "cd /verif/engine && GOFLAGS=-mod=mod GOPROXY=off GOSUMDB=off GOTOOLCHAIN=local go build -o ../bin/gosymx ./cmd/gosymx && GOFLAGS=-mod=mod GOPROXY=off GOSUMDB=off GOTOOLCHAIN=local go test -short -count=1 ./term ./smt ./sx",
     "hooks": {"guard": "verif", "enable": "harness and stub files live under /verif/harness and /verif/overlays and are injected by go/packages Overlay (engine) and go test -overlay (native replay) with -tags verif; nothing is committed to /repo",
               "baseline_off_cmd": "cd /repo && go test -vet=off -count=1 ./...", "source_commits": [], "add_only": True},
     "engines": [{"name": "gosymx", "path": "engine", "serves_properties": [c["property_id"] for c in checks],
